@@ -893,6 +893,8 @@ LAYOUTS = {
     "default-dict": "@icontract.require(lambda x, y, known={'ok': 200, 'gone': 410}: {E})\ndef {F}(x, y):\n    return 1\n",
     "default-slice": "@icontract.require(lambda x, y, part=[1, 2, 3][0:2]: {E})\ndef {F}(x, y):\n    return 1\n",
     "default-lambda": "@icontract.require(lambda x, y, fn=lambda z: z: {E})\ndef {F}(x, y):\n    return 1\n",
+    # a named predicate defined elsewhere in the file: the location is where the CONTRACT is declared (the decorator)
+    "named-predicate": "def pred_{F}(x, y):\n    return {E}\n\n\n@icontract.require(pred_{F})\ndef {F}(x, y):\n    return 1\n",
     # a description with braces is text, not a format string
     "description-braces": "@icontract.require(lambda x, y: {E}, 'one of {1, 2} or {} - see {x}')\ndef {F}(x, y):\n    return 1\n",
     "blank-lines-and-tabs": "@icontract.require(\n\n\tlambda x, y: {E}\n\n)\ndef {F}(x, y):\n    return 1\n",
@@ -907,7 +909,9 @@ class LayoutModule:
         import reprlib
         self.filename = "<icv-layout-{}>".format(next(_SERIAL))
         src = "import icontract\n\n"
+        self.first_line = {}  # type: Dict[str, int]     # line of the source at which the item of a function starts
         for fname, layout, text in items:
+            self.first_line[fname] = src.count("\n") + 1
             src += LAYOUTS[layout].replace("{E}", text).replace("{F}", fname) + "\n"
         linecache.cache[self.filename] = (len(src), None, src.splitlines(True), self.filename)
         self.ident_calls = []  # type: List[Any]
@@ -992,6 +996,14 @@ def check_layouts(res: CheckResult, prop_clauses: Dict[str, set], cases: List[di
                     _viol(res, prop_clauses, "msg.header", "layout {}: no location line: {!r}".format(layout, msg[:200]), c)
                     continue
                 body = "\n".join(lines[1:])
+                if layout == "named-predicate":
+                    # no condition text to recover; the location line names the line of the decorator (the 5th line of the
+                    # item), not the line where the predicate happens to be defined
+                    want_line = mod.first_line[fname] + 4
+                    if not lines[0].startswith("File {}, line {} in ".format(mod.filename, want_line)):
+                        _viol(res, prop_clauses, "msg.header", "layout {}: the contract is declared at line {} but the message "
+                              "says {!r}".format(layout, want_line, lines[0][:120]), c)
+                    continue
                 if layout == "description-braces":
                     dtext = "one of {1, 2} or {} - see {x}: "
                     if not body.startswith(dtext):
